@@ -49,7 +49,7 @@ theorem keeps_dDone (s : St) (t r rest) : Keeps s (dDone s t r rest) t rest := b
     have := keeps_xAfter s t ii rest'
     exact ⟨this.pend, fun k hk => this.keep k (by simpa [dyK] using hk)⟩
   · rename_i rest'
-    have := keeps_vdrain { s with vdead := true } t rest' s.vec
+    have := keeps_vdrain s t rest' s.vec
     exact ⟨this.pend, fun k hk => this.keep k (by simpa [dyK] using hk)⟩
   · exact ⟨fun k hk => Or.inl hk, fun k hk => by simp [dyK, hk]⟩
 
